@@ -408,6 +408,25 @@ def check_layouts(ctx, rule="LAYOUT"):
         fields, params, stored, init = class_layout(ctx, ci.name)
         if not fields or init is None:
             continue
+        # constructor chain: an own __init__ hands every parameter its parent also takes on to super().__init__
+        own_init = ci.methods.get("__init__", [])
+        if own_init and init is own_init[0]:
+            parents = [c_ for c_ in m.mro(ci)[1:] if "__init__" in c_.methods]
+            if parents:
+                pinit = parents[0].methods["__init__"][0]
+                sup = [c_ for c_ in ast.walk(init.node) if isinstance(c_, ast.Call) and isinstance(c_.func, ast.Attribute) and c_.func.attr == "__init__"
+                       and isinstance(c_.func.value, ast.Call) and U(c_.func.value.func) == "super"]
+                if len(sup) == 1:
+                    from ..astutil import call_bindings
+
+                    bnd, unres = call_bindings(view(m, init), sup[0], pinit, skip_self=True)
+                    shared = [p_ for p_ in params if p_ in [q_ for q_ in pinit.all_params if q_ != "self"]]
+                    dropped = [p_ for p_ in shared if p_ not in bnd or p_ not in names_in(bnd[p_])]
+                    if not unres:
+                        ctx.decide(not dropped, rule, f"{ci.qualname}:ctor-chain", (init, sup[0]),
+                                   f"super().__init__ receives every shared parameter {shared}",
+                                   f"`{U(sup[0])[:80]}` does not pass {dropped} on to the parent constructor: the value given by the caller (file reading, from_droplet, locate_droplets) is silently "
+                                   "replaced by the parent's default, e.g. a supplied interface width comes back as None")
         n += 1
         site = f"{ci.qualname}:layout"
         ok = fields == params and set(fields) <= stored
@@ -512,3 +531,49 @@ def check_nan_width(ctx, rule="IOAGREE"):
         ctx.violate(rule, site, where, "the width setter stores nothing for NaN: an unset width read from a file keeps a stale value")
     else:
         ctx.undecided(rule, site, where, f"behaviour for NaN not decidable at `{U(node)[:60]}`")
+
+
+def check_no_cached_state(ctx, rule="IOAGREE", modules=("droplets.droplets", "droplets.emulsions", "droplets.droplet_tracks")):
+    """Droplets, emulsions and tracks are mutable (positions, radii, members can be edited in place): anything derived from
+    them — in particular the arrays the writers store — must be recomputed on access.  A memoising decorator on a method or
+    property of these classes makes a later save write the state of an earlier one."""
+    m = ctx.model
+    bad = []
+    n = 0
+    for fi in m.all_functions():
+        if fi.module.name not in modules or fi.cls is None:
+            continue
+        n += 1
+        for d in fi.decorators:
+            last = (d or "").split(".")[-1]
+            if last in ("cached_property", "lru_cache", "cache", "memoize", "cached"):
+                bad.append((fi, d))
+    ctx.decide(not bad, rule, "mutable-classes:no-cache", bad[0][0] if bad else None,
+               f"no method or property of the droplet/emulsion/track classes is memoised ({n} examined)",
+               f"`{bad[0][0].qualname if bad else ''}` is decorated with `{bad[0][1] if bad else ''}`: its value is computed once and kept although the object can be edited in place "
+               "afterwards (track.last.radius = …, emulsion[i].position = …); a second save then writes the stale array and the file reads back a state the object no longer has")
+
+
+def check_writers_propagate(ctx, rule="IOAGREE"):
+    """A writer either stores every member or raises: an exception of a member writer (mixed classes cannot form one table …)
+    is never caught and skipped, otherwise the file silently lacks that member and reads back a shorter collection."""
+    m = ctx.model
+    for fi in m.all_functions():
+        short = fi.qualname.split(".")[-1]
+        if short not in ("to_file", "_write_hdf_dataset") or not fi.qualname.startswith("droplets."):
+            continue
+        fv = view(m, fi)
+        si = stmt_index(fv)
+        bad = None
+        for c in fv.calls(nested=True):
+            nm = c.func.attr if isinstance(c.func, ast.Attribute) else (c.func.id if isinstance(c.func, ast.Name) else "")
+            if nm not in ("_write_hdf_dataset", "create_dataset") and not (isinstance(c.func, ast.Attribute) and False):
+                continue
+            for parent, fld in si.ancestors(c):
+                if isinstance(parent, ast.Try) and fld == "body":
+                    for h in parent.handlers:
+                        if not any(isinstance(x, ast.Raise) for x in ast.walk(h)):
+                            bad = (c, h)
+        ctx.decide(bad is None, rule, f"{fi.qualname}:propagates", (fi, bad[1]) if bad else fi, "failures of a member writer propagate to the caller",
+                   f"`except {U(bad[1].type) if bad and bad[1].type is not None else ''}` around `{U(bad[0])[:60] if bad else ''}` swallows the failure of one member: the write succeeds but the file lacks "
+                   "that member, so it reads back different from what was saved instead of the write raising")
